@@ -5,6 +5,7 @@ import (
 	"go/ast"
 	"go/token"
 	"go/types"
+	"math/big"
 )
 
 type stdModel struct {
@@ -99,6 +100,47 @@ func init() {
 	}}
 	stdModels["os.File.Read"] = readModel
 	stdModels["io.Reader.Read"] = readModel
+	// encoding/binary big-endian 64-bit codec: byte k holds bits 8*(7-k) .. 8*(7-k)+7
+	stdModels["encoding/binary.bigEndian.PutUint64"] = stdModel{pure: false, norecv: true, f: func(v *FnV, st *State, call *ast.CallExpr, recv *Value, args []Value) []Value {
+		b, x := args[0], args[1]
+		v.safety(st, "call:PutUint64", call, sGe(sx("sllen", b.S), "8"), "binary.BigEndian.PutUint64: the buffer holds at least 8 bytes")
+		sl, _ := b.T.Underlying().(*types.Slice)
+		sum := "0"
+		for k := 0; k < 8; k++ {
+			var byteK string
+			if v.c.bv {
+				byteK = fmt.Sprintf("((_ extract %d %d) %s)", 8*(7-k)+7, 8*(7-k), x.S)
+			} else {
+				// positional form: the eight base-256 digits of x (unique; linear for the solver)
+				d := st.freshVal("digit", tByte)
+				byteK = d.S
+				sum = sAdd(sum, sx("*", d.S, new(big.Int).Lsh(big.NewInt(1), uint(8*(7-k))).String()))
+			}
+			v.sliceStore(st, sl.Elem(), b.S, fmt.Sprint(k), byteK)
+		}
+		if !v.c.bv {
+			st.assume(sEq(x.S, sum))
+		}
+		return nil
+	}}
+	stdModels["encoding/binary.bigEndian.Uint64"] = stdModel{pure: true, norecv: true, f: func(v *FnV, st *State, call *ast.CallExpr, recv *Value, args []Value) []Value {
+		b := args[0]
+		v.safety(st, "call:Uint64", call, sGe(sx("sllen", b.S), "8"), "binary.BigEndian.Uint64: the buffer holds at least 8 bytes")
+		sl, _ := b.T.Underlying().(*types.Slice)
+		t := types.Typ[types.Uint64]
+		if v.c.bv {
+			parts := make([]string, 8)
+			for k := 0; k < 8; k++ {
+				parts[k] = v.sliceLoad(st, sl.Elem(), b.S, fmt.Sprint(k))
+			}
+			return []Value{{T: t, S: sx("concat", parts...)}}
+		}
+		sum := "0"
+		for k := 0; k < 8; k++ {
+			sum = sAdd(sum, sx("*", v.sliceLoad(st, sl.Elem(), b.S, fmt.Sprint(k)), new(big.Int).Lsh(big.NewInt(1), uint(8*(7-k))).String()))
+		}
+		return []Value{{T: t, S: sum}}
+	}}
 	stdModels["sort.Search"] = stdModel{pure: true, f: func(v *FnV, st *State, call *ast.CallExpr, recv *Value, args []Value) []Value {
 		// the predicate closure is not executed; only the documented range of the result is used
 		r := st.freshVal("search", tInt)
